@@ -24,10 +24,10 @@ def gen_scenarios(prop, tier, seed):
             sc["options"] = {"sample_count": 3, "sample_size": 2}
             scs.append(sc)
             k += 1
-    per_cell = 1 if tier == "quick" else 6
+    per_cell = 2 if tier == "quick" else 8
     threads = (2, 3) if prop == "C08" else (1, 2, 3)
     scs += G.matrix_scenarios(rnd, per_cell=per_cell, threads_choices=threads)
-    n_extra = 60 if tier == "quick" else 800
+    n_extra = 200 if tier == "quick" else 2000
     for j in range(n_extra):
         sc = G.base(rnd, f"x{j}")
         if prop == "C08":
@@ -37,9 +37,9 @@ def gen_scenarios(prop, tier, seed):
             sc["alloc_script"] = G.rand_alloc_script(rnd, heavy=True)
         scs.append(sc)
     # panics on a single thread (T = 1), every site
-    scs += G.panic_scenarios(rnd, 30 if tier == "quick" else 300, single_thread_only=True)
+    scs += G.panic_scenarios(rnd, 80 if tier == "quick" else 600, single_thread_only=True)
     # bounded-exhaustive interleavings of T = 2
-    dfs_n = 3 if tier == "quick" else 12
+    dfs_n = 5 if tier == "quick" else 16
     for j in range(dfs_n):
         sc = G.base(rnd, f"dfs{j}", entry=rnd.choice(["bench_values", "bench_refs", "bench"]),
                     threads=2, action="bench")
@@ -47,7 +47,7 @@ def gen_scenarios(prop, tier, seed):
         sc["input_counters"] = []
         sc["alloc_script"] = {"call": [{"op": "alloc", "size": 8}]} if prop != "C01" else {}
         sc["schedule"] = {"source": "dfs", "bound": 1 if tier == "quick" else 2,
-                          "max_runs": 300 if tier == "quick" else 5000}
+                          "max_runs": 500 if tier == "quick" else 6000}
         scs.append(sc)
     return scs
 
@@ -55,7 +55,7 @@ def gen_scenarios(prop, tier, seed):
 def multi_thread_panic_scenarios(tier, seed):
     rnd = random.Random(seed * 31 + 5)
     scs = []
-    for k in range(24 if tier == "quick" else 200):
+    for k in range(60 if tier == "quick" else 500):
         sc = G.base(rnd, f"mp{k}", entry=rnd.choice(["bench_values", "bench_refs", "bench"]),
                     threads=rnd.choice([2, 2, 3]), action=rnd.choice(["bench", "test"]))
         sc["options"] = {"sample_count": rnd.randint(1, 4), "sample_size": rnd.randint(1, 2)}
